@@ -4,7 +4,7 @@ from . import gen_c01, oracles
 
 class GraphProp:
     def __init__(self, pid, gen, owner, compare, reach, signature=None, fault_rate=0.12,
-                 simplify=None, variants=None, shard=None, followups=None):
+                 simplify=None, variants=None, shard=None, followups=None, valid=None):
         self.pid = pid
         self.gen = gen
         self.owner = owner
@@ -16,6 +16,7 @@ class GraphProp:
         self.variants = variants
         self.shard = shard      # case -> str: the JIT-specialisation class a case belongs to
         self.followups = followups
+        self.valid = valid          # case -> bool: inside the property's stated domain
 
 
 def default_signature(case, violation):
@@ -44,7 +45,7 @@ def _register():
     try:
         from . import gen_c07
         GRAPH_PROPS["C07"] = GraphProp("C07", gen_c07.gen_case, gen_c07.owner, gen_c07.compare,
-                                       gen_c07.reach, fault_rate=0.10, variants=gen_c07.variants)
+                                       gen_c07.reach, fault_rate=0.10, variants=gen_c07.variants, valid=gen_c07.valid)
     except ImportError:
         pass
 
